@@ -1982,68 +1982,82 @@ GENERATORS["MatsGen.v"] = gen_mats_params
 
 def gen_cauchy_init():
     """cauchy.get_cauchy_point: the statements between the ordering of the breakpoints and the loop - p = W'd, c = 0, f', f'', f2_org,
-    the correction of f'' by the BLAS oracle, delta_t_min, the early return without breakpoint, the first breakpoint."""
+    the correction of f'' by the BLAS oracle, delta_t_min, the early return without breakpoint, the first breakpoint - executed
+    symbolically in the order of the source (independent statements may come in any order; a use before its definition, or
+    f2_org taken after the correction of f'', gives another term or is refused)."""
     L = ["(* GENERATED from /repo/lbfgsb/cauchy.py by harness/translate.py - do not edit *)",
          "From Coq Require Import List Bool Floats.PrimFloat.", "From LBFGSB Require Import Model.FloatVec Model.NumpyOps.", "Import ListNotations.", ""]
     fn = _func(_unann(ast.parse(_src("cauchy.py"))), "get_cauchy_point")
     body = [s for s in fn.body if not (isinstance(s, ast.Expr) and isinstance(s.value, ast.Constant)) and not (isinstance(s, ast.If) and "logger" in ast.unparse(s.test))]
-    names = [ast.unparse(s.targets[0]) if isinstance(s, ast.Assign) else (ast.unparse(s.target) if isinstance(s, (ast.AnnAssign, ast.AugAssign)) else None) for s in body]
-    # start right after the second assignment of sorted_t_idx, stop at the while
+    names = [ast.unparse(s.targets[0]) if isinstance(s, ast.Assign) else (ast.unparse(s.target) if isinstance(s, ast.AugAssign) else None) for s in body]
     idx = [i for i, n in enumerate(names) if n == "sorted_t_idx"]
     wh = [i for i, s in enumerate(body) if isinstance(s, ast.While)]
     if len(idx) != 2 or len(wh) != 1:
         raise TranslateError("get_cauchy_point: head or loop not found")
     seg = body[idx[1] + 1:wh[0]]
-    u = [ast.unparse(s) for s in seg]
-    want = ["p = mats.W.T @ d", "c = np.zeros(p.size)", "f_prime = -d.dot(d)", "f_second = -mats.theta * f_prime",
-            "f2_org = copy.deepcopy(f_second)", "if mats.use_factor:\n    f_second = f_second - p.dot(bmv(mats.invMfactors, p))",
-            "delta_t_min = -f_prime / f_second", "nbreak = len(sorted_t_idx)", "if nbreak == 0:\n    return (x_cp, c)", "_i = 0",
-            "ibp = sorted_t_idx[_i]", "t_cur = t[ibp]", "t_old = 0.0", "delta_t = t_cur - 0.0", "nseg = 1", "is_gpc_found = False"]
-    # the scalar statements are translated; the others are recognised by their text
-    FIXED = {0, 1, 4, 7, 8, 9, 10, 14, 15}
-    if len(u) != len(want) or any(u[i] != want[i] for i in FIXED):
-        raise TranslateError("get_cauchy_point: unexpected statements before the loop: " + " | ".join(u))
     xcp0 = [s for s in fn.body if isinstance(s, ast.Assign) and ast.unparse(s.targets[0]) == "x_cp"]
-    if len(xcp0) != 1 or ast.unparse(xcp0[0].value) != "x.copy()":
-        raise TranslateError("get_cauchy_point: x_cp is not initialised to x.copy()")
-    env = {"d": ("d", "v"), "mats.theta": ("theta", "f"), "vdot": ("vdot", "fn"), "p": ("p", "v"), "t": ("t", "v"), "ibp": ("i0", "n"),
-           "p.dot(bmv(mats.invMfactors, p))": ("(o_pMp p)", "f")}
-    lets = []
-    def sc(i, name, coq):
-        s = seg[i]
-        tgt = ast.unparse(s.targets[0]) if isinstance(s, ast.Assign) else ast.unparse(s.target)
-        if tgt != name:
-            raise TranslateError(f"get_cauchy_point: expected an assignment of {name}, found {u[i]}")
-        t_, ty_ = VecExpr(env).tr(s.value)
-        if ty_ != "f":
-            raise TranslateError(f"get_cauchy_point: {name} is not a scalar")
-        lets.append(f"let {coq} := {t_} in")
-        env[name] = (coq, "f")
-    sc(2, "f_prime", "f_prime")
-    sc(3, "f_second", "f_second0")
-    env["f2_org"] = ("f_second0", "f")
-    # if mats.use_factor: f_second = f_second - p.dot(bmv(mats.invMfactors, p))
-    ifs = seg[5]
-    if not (isinstance(ifs, ast.If) and ast.unparse(ifs.test) == "mats.use_factor" and not ifs.orelse and len(ifs.body) == 1 and isinstance(ifs.body[0], ast.Assign)
-            and ast.unparse(ifs.body[0].targets[0]) == "f_second"):
-        raise TranslateError("get_cauchy_point: unexpected correction of f_second: " + u[5])
-    t_, ty_ = VecExpr(env).tr(ifs.body[0].value)
-    lets.append(f"let f_second := if use_factor then {t_} else f_second0 in")
-    env["f_second"] = ("f_second", "f")
-    sc(6, "delta_t_min", "delta_t_min")
+    if len(xcp0) != 1 or ast.unparse(xcp0[0].value) != "x.copy()" or fn.body.index(xcp0[0]) > fn.body.index(body[idx[1]]):
+        raise TranslateError("get_cauchy_point: x_cp is not initialised to x.copy() before the breakpoints are ordered")
+    env = {"d": ("d", "v"), "mats.theta": ("theta", "f"), "vdot": ("vdot", "fn"), "t": ("t", "v")}
+    terms, seen = {}, []
+    RECOGNISED = {"nbreak = len(sorted_t_idx)": "nbreak", "_i = 0": "_i", "nseg = 1": None, "is_gpc_found = False": None, "t_old = 0.0": "t_old"}
+    for s in seg:
+        u = ast.unparse(s)
+        if u == "p = mats.W.T @ d":
+            env["p"] = ("p", "v"); env["p.dot(bmv(mats.invMfactors, p))"] = ("(o_pMp p)", "f")
+        elif u == "c = np.zeros(p.size)":
+            if "p" not in env:
+                raise TranslateError("get_cauchy_point: c is sized before p exists")
+            env["c"] = ("c0", "v")
+        elif u in RECOGNISED:
+            if u == "_i = 0" and "ibp" in env:
+                raise TranslateError("get_cauchy_point: _i is reset after the first breakpoint is read")
+            if RECOGNISED[u]:
+                seen.append(RECOGNISED[u])
+        elif u == "if nbreak == 0:\n    return (x_cp, c)":
+            if "c" not in env or "nbreak" not in seen:
+                raise TranslateError("get_cauchy_point: early return before c / nbreak are defined")
+            seen.append("early_return")
+        elif u == "ibp = sorted_t_idx[_i]":
+            if "_i" not in seen:
+                raise TranslateError("get_cauchy_point: ibp read before _i = 0")
+            env["ibp"] = ("i0", "n")
+        elif u == "f2_org = copy.deepcopy(f_second)":
+            if "f_second" not in env:
+                raise TranslateError("get_cauchy_point: f2_org copied before f_second exists")
+            env["f2_org"] = env["f_second"]; terms["f2_org"] = env["f_second"][0]
+        elif isinstance(s, ast.If) and ast.unparse(s.test) == "mats.use_factor" and not s.orelse and len(s.body) == 1 and isinstance(s.body[0], ast.Assign) \
+                and ast.unparse(s.body[0].targets[0]) == "f_second" and "f_second" in env and "f_second_c" not in terms:
+            t_, ty_ = VecExpr(env).tr(s.body[0].value)
+            terms["f_second_c"] = f"if use_factor then {t_} else {env['f_second'][0]}"
+            env["f_second"] = ("f_second", "f")
+        elif isinstance(s, ast.Assign) and len(s.targets) == 1 and isinstance(s.targets[0], ast.Name) and s.targets[0].id in ("f_prime", "f_second", "delta_t_min", "t_cur", "delta_t"):
+            nm = s.targets[0].id
+            if nm in terms:
+                raise TranslateError(f"get_cauchy_point: {nm} is assigned twice before the loop")
+            if nm == "delta_t" and "t_old" not in seen:
+                raise TranslateError("get_cauchy_point: delta_t computed before t_old = 0.0")
+            t_, ty_ = VecExpr(env).tr(s.value)
+            if ty_ != "f":
+                raise TranslateError(f"get_cauchy_point: {nm} is not a scalar")
+            terms[nm] = t_
+            env[nm] = ("f_second0" if nm == "f_second" else nm, "f")
+        else:
+            raise TranslateError("get_cauchy_point: unrecognised statement before the loop: " + u)
+    need = {"f_prime", "f_second", "f2_org", "f_second_c", "delta_t_min", "t_cur", "delta_t"}
+    if set(terms) != need or "early_return" not in seen or "c" not in env:
+        raise TranslateError("get_cauchy_point: statements missing before the loop: " + repr(sorted(need - set(terms))))
+    if terms["f2_org"] != "f_second0":
+        raise TranslateError("get_cauchy_point: f2_org is not the uncorrected f_second")
+    if "f_second0" in terms["delta_t_min"]:
+        raise TranslateError("get_cauchy_point: delta_t_min uses the uncorrected f_second")
     L.append("(* p = mats.W.T @ d is the oracle's; c = zeros; vdot a b = a.dot(b); o_pMp p = p.dot(bmv(mats.invMfactors, p)).\n"
              "   Result: (f_prime, f_second, f2_org, delta_t_min) before the loop *)")
     L.append("Definition cauchy_init (vdot : vec -> vec -> float) (o_pMp : vec -> float) (theta : float) (use_factor : bool) (d p : vec) : float * float * float * float :=\n  "
-             + " ".join(lets) + " (f_prime, f_second, f_second0, delta_t_min).")
-    # the first breakpoint
-    env2 = {"t": ("t", "v"), "ibp": ("i0", "n")}
-    tc_, _ = VecExpr(env2).tr(seg[11].value)
-    env2["t_cur"] = ("t_cur", "f")
-    if ast.unparse(seg[12].value) != "0.0":
-        raise TranslateError("get_cauchy_point: t_old does not start at 0.0")
-    dt_, tdt_ = VecExpr(env2).tr(seg[13].value)
+             f"let f_prime := {terms['f_prime']} in let f_second0 := {terms['f_second']} in let f_second := {terms['f_second_c']} in "
+             f"let delta_t_min := {terms['delta_t_min']} in (f_prime, f_second, f_second0, delta_t_min).")
     L.append("(* ibp = sorted_t_idx[0]; t_cur = t[ibp]; t_old = 0.0; delta_t = t_cur - 0.0 : (t_cur, delta_t, t_old) *)")
-    L.append(f"Definition cauchy_first (t : vec) (i0 : nat) : float * float * float := let t_cur := {tc_} in (t_cur, {dt_}, 0x0.0p+0%float).")
+    L.append(f"Definition cauchy_first (t : vec) (i0 : nat) : float * float * float := let t_cur := {terms['t_cur']} in (t_cur, {terms['delta_t']}, 0x0.0p+0%float).")
     L.append("(* if nbreak == 0: return x_cp, c  with x_cp = x.copy() and c = np.zeros(p.size) *)")
     L.append("Definition cauchy_no_breakpoint (x p : vec) : vec * vec := (x, List.map (fun _ => 0x0.0p+0%float) p).")
     return "\n".join(L) + "\n"
